@@ -51,6 +51,13 @@ func main() {
 			tier = t
 		}
 		os.Exit(runCheck(os.Args[2], tier))
+	case "checkall":
+		// development aid: one load, every property (not registered in MANIFEST.json)
+		tier := "quick"
+		if len(os.Args) > 2 {
+			tier = os.Args[2]
+		}
+		os.Exit(runAll(tier, os.Args[3:]))
 	case "explain":
 		if len(os.Args) < 3 {
 			os.Exit(2)
@@ -130,6 +137,56 @@ func runCheck(id, tier string) (code int) {
 		}
 	}
 	return r.Finish(repo)
+}
+
+// runAll runs every registered property (or the listed ones) on one load of the repository.
+func runAll(tier string, only []string) (code int) {
+	seed, _ := strconv.ParseInt(os.Getenv("VERIF_SEED"), 10, 64)
+	repo := core.RepoDir()
+	prog, err := core.Load(repo, "")
+	if err != nil {
+		fmt.Fprintln(os.Stderr, "load:", err)
+		return 1
+	}
+	want := map[string]bool{}
+	for _, id := range only {
+		want[id] = true
+	}
+	var p386 *core.Program
+	for _, id := range props.IDs() {
+		if len(want) > 0 && !want[id] {
+			continue
+		}
+		func() {
+			defer func() {
+				if e := recover(); e != nil {
+					fmt.Printf("VIOLATION property=%s replay=panic\n", id)
+					fmt.Fprintf(os.Stderr, "%s: checker panic: %v\n%s\n", id, e, debug.Stack())
+					code = 1
+				}
+			}()
+			r := core.NewReport(id, tier, seed, verifDir())
+			r.PkgCount = len(prog.Pkgs)
+			r.Configs = []string{"linux/amd64"}
+			r.CheckerCmd = fmt.Sprintf("./run.sh %s %s", id, tier)
+			ctx := &props.Ctx{P: prog, R: r, Thorough: tier == "thorough"}
+			ctx.Load386 = func() (*core.Program, error) {
+				if p386 == nil {
+					var err error
+					p386, err = core.Load(repo, "386")
+					if err != nil {
+						return nil, err
+					}
+				}
+				return p386, nil
+			}
+			props.All[id].Run(ctx)
+			if r.Finish(repo) != 0 {
+				code = 1
+			}
+		}()
+	}
+	return code
 }
 
 func explain(path string) int {
